@@ -213,6 +213,9 @@ func (sc *Scratch) RunCLI(w *CLIWorld) (*CLIOutcome, error) {
 					if out.Rec.Ops[i].Real != "" {
 						out.Rec.Ops[i].Real = relTo(root, out.Rec.Ops[i].Real)
 					}
+					if out.Rec.Ops[i].Real2 != "" {
+						out.Rec.Ops[i].Real2 = relTo(root, out.Rec.Ops[i].Real2)
+					}
 					if out.Rec.Ops[i].Path2 != "" {
 						out.Rec.Ops[i].Path2 = relTo(root, out.Rec.Ops[i].Path2)
 					}
